@@ -378,6 +378,16 @@ def r10_11(ctx: Ctx) -> None:
                           f"archiveinfo() evaluates `{norm(c)}`: the size of whatever file has that NAME now (after a chdir: another file or none; for a 7z read from a zip member: "
                           "a file called like the member), or AssertionError / TypeError for a nameless stream - the summary's total size must come from the handle (os.fstat(fileno()) "
                           "or the stream's length)", construct="archiveinfo filename")
+    # the name may be None (an archive read from a nameless stream): nothing asserts otherwise - the listing of such an archive must not die
+    for st in [x for x in walk(a.node) if isinstance(x, ast.Assert)]:
+        for cd, pol in q.atoms(st.test, True):
+            nt = q.is_none_test(cd)
+            subj = nt[0] if nt is not None else cd
+            srcs = [subj] + list(q.sources_of(a, subj, depth=2))
+            about_name = any(isinstance(x, ast.Attribute) and x.attr in ("filename", "name") for e in srcs for x in ast.walk(e))
+            ctx.check(not about_name, "R10.11", a, st, "archiveinfo does not assert that the archive has a name",
+                      f"`{norm(st)}`: archiveinfo() of an archive that was opened from a stream without a name (BytesIO, a member of another container) dies with AssertionError "
+                      "although every other listing call answers", construct="archiveinfo asserts a file name")
     sized = any(dotted(c.func) == "os.fstat" for c in q.calls(a)) or any(attr_tail(c) == "seek" and len(c.args) == 2 and "SEEK_END" in norm(c.args[1]) for c in q.calls(a))
     ctx.check(sized, "R10.11", a, a.node, "archiveinfo takes the archive's size from the handle", "archiveinfo() has no source for the size of the archive that is tied to the open handle",
               construct="archiveinfo size source")
@@ -462,6 +472,26 @@ def r10_15(ctx: Ctx, rule: str = "R10.15") -> None:
                   construct="EmptyFile vector written")
 
 
+LISTING_API = ("getnames", "namelist", "getinfo", "list", "archiveinfo", "needs_password")
+
+
+def r10_16(ctx: Ctx, rule: str = "R10.16") -> None:
+    """the listing interfaces answer from the member list AS IT IS NOW - in a write or append session it grows between two calls.  None of
+    them stores anything on the archive object (`self.X = ...`, setattr(self, ...)): an index or a summary kept from the first call
+    describes the archive as it was, and getinfo raises KeyError for members that getnames lists."""
+    n = 0
+    for name in LISTING_API:
+        f = shared.szf(ctx, name)
+        n += 1
+        stores = [x for x in walk(f.node) if (isinstance(x, ast.Attribute) and isinstance(x.ctx, ast.Store) and isinstance(x.value, ast.Name) and x.value.id == "self")
+                  or (isinstance(x, ast.Call) and dotted(x.func) == "setattr" and x.args and isinstance(x.args[0], ast.Name) and x.args[0].id == "self")]
+        ctx.check(not stores, rule, f, stores[0] if stores else f.node, f"{name} keeps nothing on the archive object",
+                  (f"`{norm(stores[0])}`: " if stores else "") + f"{name}() stores a value on the archive object: what it computed from the member list of the FIRST call answers the later ones - "
+                  "in a write or append session members written after that call are listed by getnames()/list() while getinfo() raises KeyError for them",
+                  construct=f"{name} memoises on self")
+    ctx.floor(rule, n, 6, "listing interfaces")
+
+
 def r10_14(ctx: Ctx, rule: str = "R10.14") -> None:
     """the listing of a write session describes what was ARCHIVED: Worker.archive stores the member's `uncompressed` size on every path - the
     size that went into the stream (the last entry of substreamsinfo.unpacksizes) for a member with a stream, 0 for one without.  _make_file_info
@@ -510,6 +540,7 @@ def run(ctx: Ctx) -> None:
     r10_14(ctx)
     r10_13(ctx)
     r10_15(ctx)
+    r10_16(ctx)
     r10_12(ctx)
     r10_11(ctx)
     from . import c08 as _c08
